@@ -146,6 +146,42 @@ def gen_dot_core(rng, n):
     return out
 
 
+def gen_preserve_core(rng, n):
+    """flip / roll along one or two bracketed axes of a tensor with nested flattened axes; the output lists the same leaf axes in
+    another arrangement (bracketed ones in their original relative order)"""
+    out = []
+    g = gencalls.G(rng)
+    while len(out) < n:
+        axes = g.pick_axes(rng.randint(2, 4), sizes=[2, 3, 4, 5], maxprod=2000)
+        if any(a.size == 1 for a in axes):
+            continue
+        gencalls.mark_some(rng, axes, 1, 2)
+        order = g.perm(axes)
+        din = g.arrange(order, units=0.0, flat=0.4)
+        marked = [a for a in order if a.marked]
+        unm = g.perm([a for a in order if not a.marked])
+        slots = sorted(rng.sample(range(len(order)), len(marked)))
+        oa, mi, ui = [], 0, 0
+        for i in range(len(order)):
+            if i in slots:
+                oa.append(marked[mi].copy())
+                mi += 1
+            else:
+                oa.append(unm[ui].copy())
+                ui += 1
+        dout = g.arrange(oa, units=0.0, flat=0.3)
+        if any(isinstance(d, gencalls.Fl) and not d.leaves() for d in din + dout):
+            continue
+        op = rng.choice(["flip", "roll"])
+        extra = {}
+        if op == "roll":
+            extra["shift"] = tuple(rng.randint(-4, 4) for _ in marked)
+        c = gencalls.Call("preserve", op, [din], [dout], [gencalls.int_data(rng, gencalls.shape_of(din))], extra)
+        c.describe(rng)
+        out.append(c)
+    return out
+
+
 def gen_reduce_core(rng, n):
     """reductions over one or more bracketed axes of one tensor with nested flattened axes (no unit axes, numbers or repeats)"""
     out = []
@@ -277,6 +313,30 @@ def run_lowering(ctx):
                                                      "equivalent, wf_model, wf_graph, sizes)",
                                    "call": c.record(), "verdict": r})
         ctx.distinct.add("lower|" + c.desc)
+    # flip / roll: reshape to the leaves, the backend function with axis = bracketed positions, rearrangement into the output
+    pcases = gen_preserve_core(ctx.rng, 150 if ctx.tier == "quick" else 5000)
+    pcaps = common.pmap(_capture_graph, pcases)
+    lines, owners = [], []
+    stats.update({"flip_roll_calls": len(pcases), "flip_roll_graph_equals_model": 0})
+    for c, cap in zip(pcases, pcaps):
+        if cap[0] == "term":
+            names = gencalls.Names()
+            extra = [irser.s_str("[" + ",".join(str(v) for v in c.extra_kwargs["shift"]) + "]")] if c.op == "roll" else []
+            kwlit = irser.s_str("kw:axis,shift" if c.op == "roll" else "kw:axis")
+            lines.append(sx(["lower_preserve", [irser.s_str(c.op), extra, kwlit, gencalls.w_dims(c.ins[0], names), gencalls.w_dims(c.outs[0], names), cap[1]]]))
+            owners.append(c)
+        elif cap[0] == "nograph" and cap[1] == 0:
+            stats["served_from_cache_no_trace"] = stats.get("served_from_cache_no_trace", 0) + 1
+        else:
+            ctx.tie_breaks.append({"correspondence": "lowering model vs traced graph: graph not captured as a term", "call": c.record(), "detail": str(cap[:2])})
+    for c, r in zip(owners, ctx.model.batch(lines)):
+        if isinstance(r, list) and r[0] == "lower" and r[1:5] == ["T", "T", "T", "T"]:
+            stats["flip_roll_graph_equals_model"] += 1
+        else:
+            ctx.tie_breaks.append({"correspondence": "Model/Lower.v: the graph einx built for this flip / roll is not equivalent to the model's term "
+                                                     "(reshape to leaves, the function with axis = bracketed positions, rearrangement; verdict: in_scope, "
+                                                     "equivalent, wf_model, wf_graph, sizes)",
+                                   "call": c.record(), "verdict": r})
     # the same dot calls on the default numpy backend: operands reshaped to their leaf axes, np.einsum with generated subscripts, reshape
     ecaps = common.pmap(_capture_graph, dcases)
     lines, owners = [], []
